@@ -34,6 +34,10 @@ def load_program(overlay=None, root=None):
 
 
 def arr(name, *dims, inp=True, labels=(), dtype=None):
+    if inp:
+        from . import terms as _terms
+
+        _terms.INPUT_SYMS.add(name)
     shape = tuple(Dim.of(d) for d in dims)
     orig = frozenset([("in", name)]) if inp else frozenset([FRESH])
     return V("arr", sym(name), shape=shape, orig=orig, labels=frozenset(labels), loc=fresh_id(), extra=dtype)
